@@ -25,6 +25,7 @@ type Case struct {
 	ReadChunk int    `json:"peer_read_chunk"`
 	DelayUs   int    `json:"peer_delay_us"`
 	NPoller   int    `json:"npoller"`
+	Repeat    int    `json:"repeat,omitempty"` // the Sizes list is issued this many times (0 = once): many queue entries
 }
 
 const window = 4 * time.Second
@@ -36,6 +37,13 @@ func runCase(c Case) vlib.Result {
 	conf := nbio.Config{NPoller: c.NPoller}
 	vlib.ApplyMode(&conf, c.Mode)
 	g := nbio.NewEngine(conf)
+	if c.Repeat > 1 {
+		one := c.Sizes
+		c.Sizes = nil
+		for i := 0; i < c.Repeat; i++ {
+			c.Sizes = append(c.Sizes, one...)
+		}
+	}
 	total := 0
 	for _, s := range c.Sizes {
 		total += s
@@ -185,6 +193,10 @@ func cells() []Case {
 			for _, o := range Origins {
 				out = append(out, Case{Transport: tr, Mode: m, Origin: o, Sizes: []int{1 << 20, 300000}, SndBuf: 8192, RcvBuf: 8192, PauseMs: 20, ReadChunk: 65536, DelayUs: 0, NPoller: 1})
 			}
+			// deep backlog (hundreds of queue entries), autotuned kernel buffers and a peer that first
+			// lets everything pile up and then reads as fast as it can: one writability event is followed
+			// by a long run of successful writes
+			out = append(out, Case{Transport: tr, Mode: m, Origin: "goroutine", Sizes: []int{40960, 70000}, Repeat: 300, SndBuf: 0, RcvBuf: 0, PauseMs: 30, ReadChunk: 1 << 20, DelayUs: 0, NPoller: 1})
 		}
 	}
 	return out
@@ -202,10 +214,22 @@ func gen(t *rapid.T) Case {
 	c.ReadChunk = rapid.SampledFrom([]int{512, 4096, 65536, 1 << 20}).Draw(t, "readchunk")
 	c.DelayUs = rapid.SampledFrom([]int{0, 0, 50, 500, 3000}).Draw(t, "delayus")
 	c.NPoller = rapid.IntRange(1, 3).Draw(t, "npoller")
+	if rapid.IntRange(0, 4).Draw(t, "deepfast") == 0 {
+		// deep backlog, autotuned buffers, fast reader (see cells)
+		// every write is bigger than half the 64 KiB coalescing limit, so each one is a queue entry of its own
+		c.Sizes = []int{rapid.SampledFrom([]int{40960, 65536, 70000}).Draw(t, "deepsize")}
+		c.Repeat = rapid.SampledFrom([]int{40, 200, 600}).Draw(t, "deeprepeat")
+		c.SndBuf, c.RcvBuf, c.DelayUs = 0, 0, 0
+		c.PauseMs = rapid.SampledFrom([]int{5, 30, 80}).Draw(t, "deeppause")
+		c.ReadChunk = rapid.SampledFrom([]int{65536, 1 << 20}).Draw(t, "deepchunk")
+	}
 	// keep a case affordable: total/readchunk*delay bounded to ~2 s
 	total := 0
 	for _, s := range c.Sizes {
 		total += s
+	}
+	if c.Repeat > 1 {
+		total *= c.Repeat
 	}
 	if total/c.ReadChunk*c.DelayUs > 2000000 {
 		c.DelayUs = 0
@@ -219,7 +243,7 @@ func gen(t *rapid.T) Case {
 func TestCheck(t *testing.T) {
 	r := vlib.NewRunner(t, "C04")
 	vlib.RunCases(r, "cells", cells(), runCase, true)
-	r.MarkExhaustive("matrix cells mode x transport x origin (30 cells, one fixed workload each)")
+	r.MarkExhaustive("matrix cells mode x transport x origin (30 cells with one fixed workload each, plus one deep-backlog / fast-reader cell per mode x transport)")
 	vlib.RunCheck(r, vlib.Check[Case]{Name: "pacing", N: r.Pick(500, 8000), Gen: gen, Run: runCase, Confirm: true, RecordCurrent: true})
 	runShimTier(r)
 	r.Finish()
